@@ -151,6 +151,10 @@ e("f_when", S_F, lambda p, t: p.when(t.f > 0).then(t.f).otherwise(t.g))
 e("f_div_lit", S_F, lambda p, t: t.f / 2)
 e("f_round_neg", S_F, lambda p, t: t.f.round(-1))
 S_S = [("t", {"s": STR, "r": STR, "a": INT})]
+e("clip_int_float_bounds", S_I, lambda p, t: t.a.clip(0.5, 10.5))
+e("clip_int_mixed_bounds", S_I, lambda p, t: t.a.clip(-1, 2.5) + t.b)
+e("coalesce_int_float_lit", S_I, lambda p, t: p.coalesce(t.a, 0.5))
+e("fill_null_int_float_lit", S_I, lambda p, t: t.a.fill_null(2.5) * 2)
 e("s_clip", S_S, lambda p, t: t.s.clip("b", "d"))
 e("s_max", S_S, lambda p, t: p.max(t.s, t.r))
 e("s_min_lit", S_S, lambda p, t: p.min(t.s, "c"))
@@ -158,6 +162,8 @@ e("s_lt", S_S, lambda p, t: t.s < t.r)
 e("s_ge_lit", S_S, lambda p, t: t.s >= "b")
 e("s_coalesce", S_S, lambda p, t: p.coalesce(t.s, t.r, "z"))
 e("s_is_in", S_S, lambda p, t: t.s.is_in("a", t.r, None))
+e("s_len_unicode", S_S, lambda p, t: t.s.str.len() + p.max(t.r.str.len(), 1))
+e("s_len_unicode_cmp", S_S, lambda p, t: (t.s.str.len() > 1) | t.r.str.upper().str.len().is_null())
 e("s_when", S_S, lambda p, t: p.when(t.s == t.r).then(t.s + "!").otherwise(t.r))
 
 
@@ -167,7 +173,7 @@ def templates(cfg):
     for nm in names:
         schema, fn, tags = E[nm]
         prog = lambda p, t, fn=fn: t >> p.mutate(y=fn(p, t))  # noqa: E731
-        out.append(Template(f"c03.{nm}", schema, prog, props=("C03",), tags=tags, nmax=2, alphabet="abcd" if schema is S_S else None, int_bound=200 if nm.startswith(("round_int", "f_round_neg")) else None))
+        out.append(Template(f"c03.{nm}", schema, prog, props=("C03",), tags=tags, nmax=2, alphabet=("a\u00e9\u20ac\U0001f600" if nm.startswith("s_len_unicode") else "abcd") if schema is S_S else None, int_bound=200 if nm.startswith(("round_int", "f_round_neg")) else None))
     # the same operators as predicates / inside filter and with literal operands in arrange
     for nm in ("floordiv_cc", "mod_cc", "bool_nested", "is_in_null", "hmax3", "when2", "or_cmp_null"):
         schema, fn, tags = E[nm]
